@@ -90,7 +90,7 @@ func (s *gkvp) SerializeValueTo(pc *PrintCtx) {
 	// if sb.jsonMode {
 	// 	sb.appendRune('}')
 	// }
-	_ = serializeAttrs(pc, s.items)
+	_ = serializeAttrsOf(pc, s.items, false, true)
 }
 
 func (s Attrs) SerializeValueTo(pc *PrintCtx) {
@@ -101,7 +101,7 @@ func (s Attrs) SerializeValueTo(pc *PrintCtx) {
 		pc.pcAppendByte('}')
 		return
 	}
-	_ = serializeAttrs(pc, s)
+	_ = serializeAttrsOf(pc, s, false, true)
 }
 
 func dedupeSlice[S ~[]E, E any](x S, cmp func(a, b E) bool) S {
@@ -137,9 +137,18 @@ func serializeAttrs(pc *PrintCtx, kvps Attrs) (err error) { //nolint:revive
 // (JSON mode only) kvps are the members of a nested object, so the
 // first member is not preceded by a comma.
 func serializeAttrsImpl(pc *PrintCtx, kvps Attrs, asObject bool) (err error) { //nolint:revive
+	return serializeAttrsOf(pc, kvps, asObject, asObject)
+}
+
+func serializeAttrsOf(pc *PrintCtx, kvps Attrs, asObject, nested bool) (err error) { //nolint:revive
 	prefix := pc.prefix
 
 	if pc.dedupeAttrs {
+		if nested {
+			// the members of a group belong to the caller and may be shared
+			// between loggers and goroutines: sort and dedupe a private copy
+			kvps = slices.Clone(kvps)
+		}
 		// stable: among equal keys the order of the sources decides which one wins
 		slices.SortStableFunc(kvps, func(a, b Attr) int {
 			if a == nil {
